@@ -36,6 +36,7 @@ func c16(c *Ctx) {
 	c16EOFAfterDrain(c)
 	c16CloseOnce(c)
 	c16SingleFrameWriter(c)
+	chunksAdvance(c, "chunk-source-advances", "the agent receives a stream whose later pieces are copies of its beginning, under the right addresses and with the right length", c.P.Method(agentRel, "agentConnection", "Write"))
 }
 
 func c16TypeTables(c *Ctx) {
